@@ -136,6 +136,24 @@ def run(repo, rep):
                   'the warning text no longer contains the printer\'s __module__ and __qualname__', nontrivial=True)
     rep.floor('C14.b', n, 6)
 
+    # ---------------------------------------------------------------- C14.e later calls unaffected
+    from . import shared_state as SS
+    n_inv = SS.check_write_inventory(repo, rep, 'C14.e')[0]
+    rep.floor('C14.e', n_inv, 4)
+    # the warning helper itself cannot raise on an odd exception (empty message ...)
+    n = 0
+    for c in ast.walk(warn.node):
+        if isinstance(c, ast.Subscript) and isinstance(c.ctx, ast.Load) and isinstance(c.slice, ast.Constant) \
+                and isinstance(c.slice.value, int) and isinstance(c.value, ast.Call):
+            n += 1
+            base = c.value
+            safe = isinstance(base.func, ast.Attribute) and base.func.attr in ('split', 'rsplit', 'partition', 'rpartition') and base.args
+            rep.check(safe, 'C14.b', 'warn-helper:index:%s' % src(c)[:50], '%s:%d' % (warn.module.relpath, c.lineno),
+                      'indexing a never-empty result', 'the warning helper evaluates %s, which raises IndexError when the sequence is empty '
+                      '(e.g. an exception with an empty message): the failure handler itself fails and the error escapes the value being '
+                      'printed' % src(c), nontrivial=True)
+    rep.count(n)
+
     # ---------------------------------------------------------------- C14.c
     n = W.visit_pairing(repo, rep, 'C14.c')
     rep.floor('C14.c', n, 6)
